@@ -60,3 +60,7 @@ def define(M):
     M("C08", "curs_anchors_looked_up_in_source_font_again", "Lib/ufo2ft/featureWriters/cursFeatureWriter.py",
       "                return self._getAnchor(glyph.name, anchorName, anchor=anchor)",
       "                return self._getAnchor(glyph.name, anchorName)")
+    # C04: regression mutant of the repaired defect (faa0976): bases reached before are skipped again
+    M("C04", "component_depth_skips_bases_visited_through_another_branch", "Lib/ufo2ft/util.py",
+      "        if component.baseGlyph in rec_stack:\n            raise InvalidFontData(",
+      "        if component.baseGlyph in visited and component.baseGlyph not in rec_stack:\n            continue\n        if component.baseGlyph in rec_stack:\n            raise InvalidFontData(")
